@@ -39,6 +39,7 @@ type HarnessDecl struct {
 	Quick     map[string]interface{} `json:"quick"`
 	Thorough  map[string]interface{} `json:"thorough"`
 	Common    map[string]interface{} `json:"common"`
+	Overrides map[string]string      `json:"overrides"` // per-harness overrides, on top of the spec-wide ones
 }
 
 // HarnessSpec: effective settings for one harness run.
@@ -75,6 +76,7 @@ type HarnessSpec struct {
 	TimeBudgetS   int              `json:"time_budget_s"`
 	DivAxioms     bool             `json:"div_axioms"`     // encode x/c, x%c (c constant) by x = q*c + r instead of bvsdiv/bvsrem
 	Solver        string           `json:"solver"`         // path solver: z3 (default) | z3-new | cvc5 | cvc5-int
+	ReplayRetries int              `json:"replay_retries"` // native replay: retry with salted verifHashKey inputs (hash-dependent counterexamples)
 	Arith         string           `json:"arith"`          // "" = bit-vectors; "int" = exact signed-integer printing (sym/intmode.go)
 }
 
@@ -388,13 +390,7 @@ func Load(spec *Spec, harnessRoot string) (*World, error) {
 	}
 	// resolve overrides: "pkg/path.Func" or "(*pkg/path.T).M" -> harness function (searched in all harness packages)
 	for from, to := range spec.Overrides {
-		var target *ssa.Function
-		for _, sp := range w.harnessPkgs {
-			if f := sp.Func(to); f != nil {
-				target = f
-				break
-			}
-		}
+		target := w.harnessFunc(to)
 		if target == nil {
 			return nil, fmt.Errorf("override target %s not found in harness packages", to)
 		}
@@ -454,7 +450,7 @@ func (w *World) effective(h *HarnessDecl) (*HarnessSpec, error) {
 		for k := range probe {
 			known[k] = true
 		}
-		for _, k := range []string{"div_axioms", "solver", "arith", "float", "sched", "maporder", "sort", "pool", "unwind", "max_decisions", "max_depth", "max_threads", "preempt", "concretize_max", "max_alloc", "max_steps", "max_paths", "feas_ms", "assert_ms", "clock_lo", "clock_hi", "clock_nanos", "panic_ok", "unwind_viol", "deadlock_ok", "time_budget_s", "params", "fix"} {
+		for _, k := range []string{"div_axioms", "solver", "arith", "replay_retries", "float", "sched", "maporder", "sort", "pool", "unwind", "max_decisions", "max_depth", "max_threads", "preempt", "concretize_max", "max_alloc", "max_steps", "max_paths", "feas_ms", "assert_ms", "clock_lo", "clock_hi", "clock_nanos", "panic_ok", "unwind_viol", "deadlock_ok", "time_budget_s", "params", "fix"} {
 			known[k] = true
 		}
 		rest := map[string]interface{}{}
@@ -509,4 +505,30 @@ func (w *World) effective(h *HarnessDecl) (*HarnessSpec, error) {
 	hs.Entry = h.Entry
 	hs.Witnesses = h.Witnesses
 	return &hs, nil
+}
+
+func (w *World) harnessFunc(name string) *ssa.Function {
+	for _, sp := range w.harnessPkgs {
+		if f := sp.Func(name); f != nil {
+			return f
+		}
+	}
+	return nil
+}
+
+// setHarnessOverrides installs spec-wide plus per-harness overrides (harnesses run one after another).
+func (w *World) setHarnessOverrides(h *HarnessDecl) error {
+	ov := map[string]*ssa.Function{}
+	for from, to := range w.SpecFile.Overrides {
+		ov[from] = w.harnessFunc(to)
+	}
+	for from, to := range h.Overrides {
+		f := w.harnessFunc(to)
+		if f == nil {
+			return fmt.Errorf("override target %s not found in harness packages", to)
+		}
+		ov[from] = f
+	}
+	w.overrides = ov
+	return nil
 }
